@@ -42,7 +42,21 @@ def sh(cmd, cwd=None, env=None, timeout=3000):
     return p.returncode, p.stdout.decode(errors="replace")
 
 
-def candidates():
+OPS2 = [
+    (r"^(\s+)(?!return\b|raise\b|yield\b|if\b|elif\b|else\b|for\b|while\b|with\b|try\b|except\b|finally\b|pass\b|break\b|continue\b|def\b|class\b)"
+     r"([A-Za-z_][\w\.\[\]\"']* (?:=|\+=|\|=) .+|[A-Za-z_][\w\.]*\(.*\))$", r"\1pass"),          # delete a simple statement
+    (r"\bsorted\(([^()]+)\)", r"sorted(\1, reverse=True)"),
+    (r" \+= ", " -= "),
+    (r"^(\s+)if (.+):$", r"\1if not (\2):"),
+    (r"^(\s+)elif (.+):$", r"\1elif not (\2):"),
+    (r"\.add\(", ".discard("), (r"\.append\(", ".insert(0, "),
+]
+
+
+def candidates(second=False):
+    global OPS
+    if second:
+        OPS = OPS2
     out = []
     for f in FILES:
         lines = open(os.path.join(REPO, f)).read().split("\n")
@@ -164,8 +178,9 @@ def main():
     ap.add_argument("--seed", type=int, default=0)
     ap.add_argument("--jobs", type=int, default=8)
     ap.add_argument("--max-b", type=int, default=60)
+    ap.add_argument("--second", action="store_true", help="second operator set: deleted statements, negated conditions, reversed sorts")
     a = ap.parse_args()
-    cands = candidates()
+    cands = candidates(a.second)
     rng = random.Random(a.seed)
     rng.shuffle(cands)
     chosen = cands[: a.n]
@@ -179,7 +194,7 @@ def main():
                "phase_b": {k: sum(1 for r in rb if r["verdict"] == k) for k in ("failing input", "no failing input", "quiet")}}
     json.dump({"summary": summary, "seed": a.seed, "phase_b": rb,
                "suite_killed": [{k: r[k] for k in ("file", "line", "old", "new")} for r in ra if r["suite"] == "killed"]},
-              open(os.path.join(ROOT, "code_mutation_sweep.json"), "w"), indent=1)
+              open(os.path.join(ROOT, "code_mutation_sweep2.json" if a.second else "code_mutation_sweep.json"), "w"), indent=1)
     print(summary)
 
 
